@@ -341,8 +341,8 @@ def run(prop, tier):
                     cc = dict(c_, id=sid, profile=profile, world=(comp, concat, fn))
                     case_index[sid] = cc
                     sc = dict(req, id=sid, damage=c_["damage"])
-                    if prop == "C06" and comp != "none" and any(p[0] == "c.data" for p in c_["parts"]) and (i % 7 == 0 or tier == "thorough"):
-                        sc["threads"] = 4       # several readers waiting on the same failing decoder
+                    if prop == "C06" and comp != "none" and any(p[0] == "c.data" for p in c_["parts"]):
+                        sc["threads"] = 6       # several readers waiting on the same failing decoder
                     if prop == "C06":
                         sc["direct"] = True     # the damaged file also opened directly by every pack reader
                     scns.append(sc)
